@@ -16,14 +16,13 @@
    * c04_history: Inv after every history of ComputeNow operations (fold_left from the empty store,
      failed operations leave the store unchanged).
    * c04_queries: under Inv, `e in a`, is_ancestor_of and the ancestor listing are characterised by
-     e = a \/ reach.  (is_ancestor_of a e for e PRESENT is reach only — it is not reflexive, exactly
-     as the code; for e absent it is a = e.)
+     e = a \/ reach, for all pairs, present or absent (is_ancestor_of is reflexive since /repo 13ea66c).
    * c04_enforce, c04_enforce_closed: enforce_tc_and_dag = Ok implies the store is transitively
      closed and loop-free, hence contains every reachable uid and is acyclic.
    NOT proved (correspondence only): that the incremental layer (i_add / i_upsert / i_remove: strip +
    repair_tc + self-loop test on touched nodes, as coded) refines the spec layer; and the SCC-based
    compute_tc, which the model represents by its contract (recompute). *)
-From Cedar Require Import TC TCProofs.
+From Cedar Require Import TC TCProofs TCIncProofs.
 Open Scope N_scope.
 
 Theorem c04_closure_correct : forall g u c, closure g u = Some c -> forall a, In a c <-> reach g u a.
@@ -70,8 +69,7 @@ Print Assumptions c04_history.
 
 Theorem c04_queries : forall s, Inv s ->
   (forall e a, q_in s e a = true <-> (e = a \/ reach (graph_of s) e a)) /\
-  (forall a e, q_is_ancestor_of s a e = true <->
-               (reach (graph_of s) e a \/ (find e s = None /\ a = e))) /\
+  (forall a e, q_is_ancestor_of s a e = true <-> (a = e \/ reach (graph_of s) e a)) /\
   (forall u, match q_ancestors s u with
              | Some l => forall a, In a l <-> reach (graph_of s) u a
              | None => find u s = None /\ forall a, ~ reach (graph_of s) u a
@@ -113,6 +111,90 @@ Theorem c04_inc_edit_parents_partial : forall s o,
 Proof. exact inc_edit_parents. Qed.
 Print Assumptions c04_inc_edit_parents_partial.
 
+(* ---- incremental layer: repair_tc as coded (add_ancestors DFS with seen/explored, fuel) ----
+   c04_repair_correct (b, and c in the acyclic case): for ANY store and touched set such that
+   (i) every cached ancestor is justified by a path (Sound), (ii) every entity outside the touched set
+   already lists everything it reaches (complete), (iii) the parent graph is acyclic:
+   `repair` does not run out of fuel, passes the self-loop test on the touched nodes, leaves the direct
+   parents unchanged and makes every entity's ancestors exactly `reach`. *)
+Theorem c04_repair_correct : forall s T,
+  Sound (graph_of s) s ->
+  (forall x, In x (keys s) -> ~ In x T -> complete (graph_of s) s x) ->
+  acyclic (graph_of s) ->
+  exists s', repair T s = TOk s' /\ graph_of s' = graph_of s
+             /\ forall u n, find u s' = Some n -> forall a, In a (ancestors n) <-> reach (graph_of s) u a.
+Proof. exact repair_correct. Qed.
+Print Assumptions c04_repair_correct.
+
+(* c04_repair_sound: on ANY parent graph (cyclic included) whatever `repair` accepts keeps the direct
+   parents and lists only ancestors justified by a path; a Cycle error it reports is a real cycle. *)
+Theorem c04_repair_sound : forall s T,
+  Sound (graph_of s) s ->
+  match repair T s with
+  | TOk s' => graph_of s' = graph_of s /\ Sound (graph_of s) s'
+  | TErr ECycle => exists t, In t (keys s) /\ reach (graph_of s) t t
+  | TErr _ => True
+  end.
+Proof. exact repair_sound. Qed.
+Print Assumptions c04_repair_sound.
+
+(* c04_inc_refines_add_partial (a + b + graph-level c): add_entities(ComputeNow), any batch, any store with Inv.
+   * map edit fails (duplicate): both layers fail with the same error;
+   * edited parent graph acyclic: both layers succeed, equal direct parents, equal ancestor sets (the touched
+     set computed by the code — added uids plus every entity with a touched ancestor — leaves only complete
+     entities untouched, and the coded DFS recomputes the touched ones exactly);
+   * the incremental layer reports Cycle: the spec layer reports Cycle (the cycle is real);
+   * every cycle of the edited graph runs through touched entities only (so restricting the self-loop
+     test to touched nodes loses nothing once their closures are right).
+   MISSING for the full refinement: on a CYCLIC edited graph the spec layer rejects
+   (c04_spec_op_cycle_rejected), but that the coded DFS produces a self-loop on some touched node (i.e. that
+   the incremental layer cannot answer Ok or run out of fuel there) is not proved — correspondence only. *)
+Theorem c04_inc_refines_add_partial : forall s es,
+  Inv s ->
+  match insert_all s es with
+  | TErr e => i_add true s es = TErr e /\ s_compute s (OAdd true es) = TErr e
+  | TOk s1 =>
+      (acyclic (graph_of s1) ->
+       exists si ss, i_add true s es = TOk si /\ s_compute s (OAdd true es) = TOk ss /\ agree si ss)
+      /\ (i_add true s es = TErr ECycle -> s_compute s (OAdd true es) = TErr ECycle)
+      /\ (forall t, i_add_loop s [] es = TOk (s1, t) ->
+          forall x, reach (graph_of s1) x x -> In x (touch_descendants t s1))
+  end.
+Proof.
+  intros s es HI. destruct (insert_all s es) as [s1|e] eqn:E.
+  - split; [|split].
+    + intros Hacy. eapply inc_refines_add; eassumption.
+    + intros H. eapply inc_add_cycle; eassumption.
+    + intros t EL. eapply add_cycles_touched; eassumption.
+  - apply inc_add_error; exact E.
+Qed.
+Print Assumptions c04_inc_refines_add_partial.
+
+(* c04_inc_refines_remove_partial (a + b + c): remove_entities(ComputeNow) of ONE uid (present or absent)
+   from any store with Inv: both layers succeed (no cycle can arise), with equal direct parents and equal
+   ancestor sets — stripping removes nothing that is not recomputed, untouched entities stay complete, an
+   ancestor reachable both through the removed entity and through a sibling is kept/recovered.
+   MISSING: batches of several uids (the code strips against partially stripped intermediate states). *)
+Theorem c04_inc_refines_remove_partial : forall s u,
+  Inv s ->
+  exists si ss, i_remove true s [u] = TOk si /\ s_compute s (ORemove true [u]) = TOk ss /\ agree si ss.
+Proof. exact inc_refines_remove_one. Qed.
+Print Assumptions c04_inc_refines_remove_partial.
+
+(* c04_inc_refines_upsert_partial (a + b): upsert_entities(ComputeNow) of ONE entity (present: its
+   descendants are stripped of the old entity's ancestors; absent: as add), any store with Inv:
+   edited graph acyclic => both layers succeed with equal parents and equal ancestor sets (an ancestor
+   justified only through the replaced entity's old parents disappears, one also justified by another path
+   is recomputed); the incremental layer reports Cycle => the spec layer reports Cycle.
+   MISSING: batches of several entities; rejection by the coded DFS on a cyclic edited graph. *)
+Theorem c04_inc_refines_upsert_partial : forall s e,
+  Inv s ->
+  (acyclic (graph_of (upd_over s e)) ->
+   exists si ss, i_upsert true s [e] = TOk si /\ s_compute s (OUpsert true [e]) = TOk ss /\ agree si ss)
+  /\ (i_upsert true s [e] = TErr ECycle -> s_compute s (OUpsert true [e]) = TErr ECycle).
+Proof. exact inc_refines_upsert_one. Qed.
+Print Assumptions c04_inc_refines_upsert_partial.
+
 (* ---- non-vacuity: concrete histories ---- *)
 (* diamond 0 -> {1,2} -> 3 -> 4, then remove 1 (one of two paths): 3 and 4 stay ancestors of 0;
    then remove 2 (the only remaining path): nothing survives *)
@@ -146,5 +228,33 @@ Proof. repeat split; vm_compute; reflexivity. Qed.
 Example ex_queries :
   let s := run_ops s_op ex_ops in
   (q_in s 0 0, q_is_ancestor_of s 0 0, q_is_ancestor_of s 9 9, q_in s 0 4, q_is_ancestor_of s 4 0, q_in s 0 1)
-  = (true, false, true, true, true, false).
+  = (true, true, true, true, true, false).
 Proof. vm_compute. reflexivity. Qed.
+
+(* hypotheses of c04_repair_correct / c04_inc_refines_* are satisfiable: the diamond store has Inv (c04_history),
+   adding 5 -> 0 and 4 -> 6 (4 was a dangling parent) keeps the graph acyclic and both layers agree *)
+Definition agree_b (r1 r2 : tres store) (ks : list uid) : bool :=
+  match r1, r2 with
+  | TOk a, TOk b =>
+      forallb (fun k => match find k a, find k b with
+                        | Some x, Some y => set_eqb (ancestors x) (ancestors y) && set_eqb (n_parents x) (n_parents y)
+                        | None, None => true
+                        | _, _ => false
+                        end) ks
+  | _, _ => false
+  end.
+Example ex_inc_add :
+  let s := run_ops s_op ex_ops in
+  agree_b (i_add true s [(5, [0]); (4, [6])]) (s_compute s (OAdd true [(5, [0]); (4, [6])])) [0; 1; 2; 3; 4; 5; 6] = true
+  /\ option_map (fun n => set_eqb (ancestors n) [2; 3; 4; 6])
+       (find 0 (match i_add true s [(5, [0]); (4, [6])] with TOk x => x | TErr _ => [] end)) = Some true.
+Proof. split; vm_compute; reflexivity. Qed.
+Example ex_inc_remove :
+  let s := run_ops s_op [OFrom true [(0, [1; 2]); (1, [3]); (2, [3]); (3, [4])]] in
+  agree_b (i_remove true s [1]) (s_compute s (ORemove true [1])) [0; 1; 2; 3; 4] = true.
+Proof. vm_compute. reflexivity. Qed.
+Example ex_inc_upsert :
+  let s := run_ops s_op [OFrom true [(0, [1; 2]); (1, [3]); (2, [3]); (3, [4])]] in
+  agree_b (i_upsert true s [(1, [5])]) (s_compute s (OUpsert true [(1, [5])])) [0; 1; 2; 3; 4; 5] = true
+  /\ i_upsert true s [(3, [0])] = TErr ECycle.
+Proof. split; vm_compute; reflexivity. Qed.
